@@ -875,7 +875,7 @@ def o_xcrs(case, T):
         T.exclude("window_too_large")
         return
     W = Window(M, gs, cx, cy)
-    core = sp.buffer(-delta, 16)
+    core = sp.buffer(-delta, quad_segs=16)
     shrink = max(1e-6 * unit, 1e-3 * tile_min)
     nreq = nforb = namb = 0
     for tidx, r in W.tiles.items():
@@ -1000,7 +1000,7 @@ def o_web(case, T):
         )
     require(tuple(gb.shape) == (npix, npix), "web tile shape %r", tuple(gb.shape))
     res = gb.resolution
-    rel = 8 * 2.0**-52
+    rel = 1e-12  # sanity only: the extents above (tiles 0 and 2^z-1) bound the tile size far more tightly
     require(
         abs(res.x - t / npix) <= rel * t / npix and abs(res.y + t / npix) <= rel * t / npix,
         "web tile z=%d resolution %r, expected (+%r, -%r) (dev=%.3gm over a tile)", z, (res.x, res.y), t / npix, t / npix,
@@ -1091,12 +1091,12 @@ def known_web_drift(sub, case, msg):
 # ----------------------------------------------------------------------------- registry
 def build(chk: Check) -> None:
     chk.known("C14-web-drift", known_web_drift)
-    chk.sub("tile_geobox", o_geobox, strategy=s_geobox(), n={"quick": 2500, "thorough": 150000})
-    chk.sub("pt2idx", o_pt, strategy=s_pt(), n={"quick": 2500, "thorough": 150000})
-    chk.sub("neighbours", o_nb, strategy=s_nb(), n={"quick": 1800, "thorough": 80000})
-    chk.sub("tiles_bbox", o_bbox, strategy=s_bbox(), n={"quick": 3500, "thorough": 200000})
-    chk.sub("tiles_poly", o_poly, strategy=s_poly(), n={"quick": 2500, "thorough": 120000})
-    chk.sub("tiles_poly_crs", o_xcrs, strategy=s_xcrs(), n={"quick": 1000, "thorough": 50000})
-    chk.sub("from_sample_tile", o_sample, strategy=s_sample(), n={"quick": 1700, "thorough": 80000})
-    chk.sub("web_tiles", o_web, strategy=s_web(), n={"quick": 1500, "thorough": 60000})
+    chk.sub("tile_geobox", o_geobox, strategy=s_geobox(), n={"quick": 3000, "thorough": 150000})
+    chk.sub("pt2idx", o_pt, strategy=s_pt(), n={"quick": 3000, "thorough": 150000})
+    chk.sub("neighbours", o_nb, strategy=s_nb(), n={"quick": 2000, "thorough": 80000})
+    chk.sub("tiles_bbox", o_bbox, strategy=s_bbox(), n={"quick": 4000, "thorough": 200000})
+    chk.sub("tiles_poly", o_poly, strategy=s_poly(), n={"quick": 3000, "thorough": 120000})
+    chk.sub("tiles_poly_crs", o_xcrs, strategy=s_xcrs(), n={"quick": 1200, "thorough": 50000})
+    chk.sub("from_sample_tile", o_sample, strategy=s_sample(), n={"quick": 2000, "thorough": 80000})
+    chk.sub("web_tiles", o_web, strategy=s_web(), n={"quick": 1800, "thorough": 60000})
     chk.sub("web_world", o_world, enum=e_world, exhaustive_tiers=("quick", "thorough"))
